@@ -3,6 +3,9 @@
 #ifndef TETL_TYPE_TRAITS_MAKE_UNSIGNED_HPP
 #define TETL_TYPE_TRAITS_MAKE_UNSIGNED_HPP
 
+#include <etl/_type_traits/make_signed.hpp>
+#include <etl/_type_traits/remove_cv.hpp>
+
 namespace etl {
 
 namespace detail {
@@ -60,6 +63,16 @@ struct make_unsigned<unsigned long long> {
     using type = unsigned long long;
 };
 
+template <>
+struct make_unsigned<char> {
+    using type = unsigned char;
+};
+
+template <typename T, bool = make_integer_uses_size<T>>
+struct make_unsigned_select : make_unsigned<T> { };
+template <typename T>
+struct make_unsigned_select<T, true> : make_integer_by_size<sizeof(T), false> { };
+
 } // namespace detail
 
 /// \brief If T is an integral (except bool) or enumeration type, provides the
@@ -69,7 +82,8 @@ struct make_unsigned<unsigned long long> {
 /// provided. The behavior of a program that adds specializations for
 /// make_unsigned is undefined.
 template <typename Type>
-struct make_unsigned : etl::detail::make_unsigned<Type> { };
+struct make_unsigned
+    : etl::detail::make_integer_copy_cv<Type, typename etl::detail::make_unsigned_select<etl::remove_cv_t<Type>>::type> { };
 
 template <typename T>
 using make_unsigned_t = typename make_unsigned<T>::type;
